@@ -117,6 +117,10 @@ def strategy(tier):
     @st.composite
     def case(draw):
         which = draw(st.integers(0, 19))
+        if which == 2:
+            k = draw(st.integers(2, 4))
+            return {"kind": "info", "objs": draw(st.lists(st.integers(0, 1), min_size=k, max_size=k)),
+                    "draws": draw(st.lists(st.integers(0, 5), min_size=k, max_size=k))}
         if which == 0:
             return {"kind": "stub", "u": draw(ustub), "ranges": draw(st.lists(rng, min_size=1, max_size=12))}
         if which == 1:
@@ -553,6 +557,42 @@ def _run_cover(case, out, grid):
     out.label("cover-width=%d" % w)
 
 
+def _run_info(case, out):
+    """The default streams of separately created StreamInformation / StreamSeedInformation objects are separate
+    streams (seed 10 each): draws from one never alter another, each starts at the sequence of MersenneTwister(10)."""
+    from pydsol.core.streams import MersenneTwister, StreamInformation, StreamSeedInformation
+    classes = [StreamInformation if k == 0 else StreamSeedInformation for k in case["objs"]]
+    infos = []
+    expected = []
+    for cls, n in zip(classes, case["draws"]):
+        try:
+            info = cls()
+            s = info.get_stream("default")
+        except Exception as e:
+            out.fail("raises:info:" + type(e).__name__, repr(e))
+            return
+        infos.append(info)
+        ref = MersenneTwister(10)
+        want = [ref.next_float() for _ in range(n)]
+        got = [s.next_float() for _ in range(n)]      # drawn AFTER the earlier objects were used
+        if got != want:
+            out.fail("independence:default-streams-of-separate-info-objects",
+                     {"object": len(infos) - 1, "draws": n, "first_got": got[:2], "first_want": want[:2]})
+            return
+        expected.append((s, ref))
+    for a in range(len(infos)):
+        for b in range(a + 1, len(infos)):
+            if infos[a].get_stream("default") is infos[b].get_stream("default"):
+                out.fail("independence:default-stream-object-shared", [a, b])
+                return
+    for s, ref in expected:                            # and they continue independently
+        if s.next_float() != ref.next_float():
+            out.fail("independence:default-streams-of-separate-info-objects", "continuation")
+            return
+    out.nontrivial = len(infos) >= 2 and sum(case["draws"]) >= 2
+    out.label("info-objects=%d" % len(infos))
+
+
 def run_case(case):
     out = Outcome()
     kind = case.get("kind", "prog")
@@ -565,6 +605,8 @@ def run_case(case):
         _run_cover(case, out, grid=False)
     elif kind == "grid":
         _run_cover(case, out, grid=True)
+    elif kind == "info":
+        _run_info(case, out)
     else:
         raise ValueError("unknown case kind %r" % kind)
     return out
